@@ -24,6 +24,22 @@ def run(tier, seed):
     sortedtab.check(rep, prog, [k for k, f in prog.functions.items() if '/bxdecay0/' in f.get('file', '') or '/programs/' in f.get('file', '')])
     from ..rules import announce
     announce.check(rep, prog)
+    n0 = len(rep.instances)
+    try:
+        _record_and_reader_rules(rep, prog, tier, seed)
+    except AnalysisBroken as ex:
+        from ..framework import is_known
+        del rep.instances[n0:]          # obligations of rules that then admitted they cannot read this tree are not believed
+        rep.floors = []
+        if any((not x.ok) and not is_known('C11', x) for x in rep.instances):
+            # a violation has been established by an earlier rule: the shape-bound rules that cannot read this tree do not hide it
+            rep.cannot_decide('READER', 'bxdecay0/event_reader.cc', str(ex))
+        else:
+            raise
+    return rep
+
+
+def _record_and_reader_rules(rep, prog, tier, seed):
     es = prog.fn('bxdecay0::event::store')
     ps = prog.fn('bxdecay0::particle::store')
     rd = prog.fn('bxdecay0::event_reader::load_next_event')
@@ -197,7 +213,6 @@ def run(tier, seed):
     _file_index(rep, prog)
     _delivers(rep, prog, rd)
     _skips_empty(rep, prog)
-    return rep
 
 
 def _in_loop(F, node):
